@@ -692,11 +692,16 @@ impl Expression for FunctionCall {
         // This doesn't actually match current runtime behavior in some cases,
         // but that will be changed.
         // see: https://github.com/vectordotdev/vector/issues/13752
+        // A `return` evaluated inside an argument ends the program (or closure iteration) with its
+        // value, so the argument's return kind is part of the call's.
+        let mut returns = Kind::never();
         for arg_node in &*self.arguments {
-            let _result = arg_node.inner().expr().apply_type_info(&mut state);
+            let result = arg_node.inner().expr().apply_type_info(&mut state);
+            returns.merge_keep(result.returns().clone(), false);
         }
 
         let mut expr_result = self.expr.apply_type_info(&mut state);
+        expr_result.returns_mut().merge_keep(returns, false);
 
         // If one of the arguments only partially matches the function type
         // definition, then we mark the entire function as fallible.
